@@ -2,6 +2,8 @@
   C04 — garbage is reclaimed and a finished run leaves nothing behind.
 -/
 import Nlmodel.Proofs.Lemmas.GCReach
+import Nlmodel.Proofs.Lemmas.GCPrecise
+import Nlmodel.Proofs.Lemmas.NoDangle
 import Nlmodel.Proofs.Lemmas.ManagedInv
 import Nlmodel.Proofs.Lemmas.TypeInv
 import Nlmodel.Model.Pipeline
@@ -13,77 +15,15 @@ open GC
     roots: everything else it managed has been released -/
 theorem C04_collect_precise (m : Mem) (roots : List Value) (hk : HeapKindOK m.heap)
     (hr : ∀ v ∈ roots, KindOK m.heap v) (hne : m.managed.isEmpty = false) (a : Nat) :
-    a ∈ (run m roots).managed ↔ (a ∈ m.managed ∧ Reach m.heap m.managed roots a) := by
-  unfold run
-  simp only [hne, Bool.false_eq_true, ↓reduceIte, List.mem_filter, List.contains_eq_mem, decide_eq_true_eq]
-  constructor
-  · intro ⟨hm, hmark⟩
-    refine ⟨hm, ?_⟩
-    -- every marked address is reachable from some root
-    have key : ∀ (l : List Value) (N : List Nat) (y : Nat), y ∈ l.foldl (mark m.heap m.managed (m.managed.length + 1)) N →
-        y ∈ N ∨ ∃ e ∈ l, ∃ b, e.addr? = some b ∧ RA m.heap m.managed b y := by
-      intro l
-      induction l with
-      | nil => intro N y hy; exact Or.inl hy
-      | cons e l ihl =>
-        intro N y hy
-        simp only [List.foldl_cons] at hy
-        cases ihl _ y hy with
-        | inl h1 =>
-          cases mark_sound m.heap m.managed _ N e y h1 with
-          | inl h2 => exact Or.inl h2
-          | inr h2 => obtain ⟨b, hb, hr'⟩ := h2; exact Or.inr ⟨e, List.mem_cons_self, b, hb, hr'⟩
-        | inr h1 =>
-          obtain ⟨e', he', b, hb, hr'⟩ := h1
-          exact Or.inr ⟨e', List.mem_cons_of_mem _ he', b, hb, hr'⟩
-    cases key roots [] a hmark with
-    | inl h1 => simp at h1
-    | inr h1 =>
-      obtain ⟨e, he, b, hb, hra⟩ := h1
-      -- turn the address chain into reachability from the roots
-      have : ∀ x, RA m.heap m.managed b x → Reach m.heap m.managed roots x := by
-        intro x hx
-        induction hx with
-        | refl hmb => exact Reach.root e b he hb hmb
-        | step y v c _ hv hc hmc ih => exact Reach.step y v c ih hv hc hmc
-      exact this a hra
-  · intro ⟨hm, hreach⟩
-    exact ⟨hm, markAll_complete m.heap m.managed roots hk hr a hreach⟩
+    a ∈ (run m roots).managed ↔ (a ∈ m.managed ∧ Reach m.heap m.managed roots a) :=
+  collect_precise m roots hk hr hne a
 
 /-- ... and what it released is really gone: an unreachable managed object is freed -/
 theorem C04_garbage_released (m : Mem) (roots : List Value) (hk : HeapKindOK m.heap)
     (hr : ∀ v ∈ roots, KindOK m.heap v) (a : Nat) (hm : a ∈ m.managed) (hb : a < m.heap.cells.size)
     (hun : ¬ Reach m.heap m.managed roots a) :
-    (run m roots).heap.isLive a = false := by
-  have hne : m.managed.isEmpty = false := by cases hmm : m.managed with
-    | nil => rw [hmm] at hm; cases hm
-    | cons _ _ => rfl
-  have hnot : a ∉ (run m roots).managed := fun h' => hun ((C04_collect_precise m roots hk hr hne a).mp h').2
-  unfold run at hnot ⊢
-  simp only [hne, Bool.false_eq_true, ↓reduceIte] at hnot ⊢
-  have hdead : a ∈ m.managed.filter (fun x => !(markAll m.heap m.managed roots).contains x) := by
-    simp only [List.mem_filter, Bool.not_eq_true', List.contains_eq_mem, decide_eq_false_iff_not]
-    refine ⟨hm, fun hmk => hnot ?_⟩
-    simp only [List.mem_filter, List.contains_eq_mem, decide_eq_true_eq]
-    exact ⟨hm, hmk⟩
-  -- freeing a list that contains `a` leaves `a` freed
-  have free_mem : ∀ (l : List Nat) (h : Heap), a ∈ l → a < h.cells.size → (freeAll h l).get a = .freed := by
-    intro l
-    induction l with
-    | nil => intro h hmem; cases hmem
-    | cons x l ih =>
-      intro h hmem hsz
-      simp only [freeAll, List.foldl_cons]
-      by_cases hx : a ∈ l
-      · have := ih (h.free x) hx (by simpa [Heap.free, Heap.set] using hsz)
-        simpa [freeAll] using this
-      · have hax : a = x := by cases List.mem_cons.1 hmem with | inl e => exact e | inr e => exact absurd e hx
-        subst hax
-        have := freeAll_get_other (h.free a) l a hx
-        simp only [freeAll] at this
-        rw [this]; exact free_get_self h a hsz
-  unfold Heap.isLive
-  rw [free_mem _ _ hdead hb]
+    (run m roots).heap.isLive a = false :=
+  garbage_released m roots hk hr a hm hb hun
 
 /-- when the collector is dropped — at the end of a run, normal or not — everything it still
     manages is released and it manages nothing any more; unmanaged objects (the result graph handed
@@ -178,6 +118,25 @@ theorem C04_every_collection_of_every_run_is_precise (prev : VM) (bc : Bytecode)
   obtain ⟨hk, hr⟩ := TI.wt_kinds (TI.reachable_wt bc.code _ (TI.start_wt prev bc hp) s hs)
   have hr' : ∀ v ∈ roots, KindOK s.mem.heap v := fun v hv => hr v (hroots v hv)
   exact ⟨C04_collect_precise s.mem roots hk hr' hne a, fun hm hb hun => C04_garbage_released s.mem roots hk hr' a hm hb hun⟩
+
+/-- THE RESULT OUTLIVES THE INTERPRETER, for every program: when a run on a fresh machine ends with
+    a value, then after the hand-over and the drop of the collector (a) the value's deep view — every
+    nested array, string and float the caller can reach — is exactly what it was at `Halt`, (b) the
+    collector manages nothing any more, and (c) every object the run allocated that the result does
+    not reach has been released.  No hypothesis on the program or the heap. -/
+theorem C04_result_outlives_the_interpreter (bc : Bytecode) (n : Nat) (v : Value) (s : VM)
+    (h : runSteps bc.code n (({} : VM).start bc) = .value v s) :
+    (∀ f p, (finishValue v s).mem.heap.tree f p v = s.mem.heap.tree f p v) ∧
+    (finishValue v s).mem.managed = [] ∧
+    (∀ a, a ∈ s.mem.managed → ¬ Reach s.mem.heap s.mem.managed [v] a → (finishValue v s).mem.heap.isLive a = false) := by
+  have hsafe := ND.halt_safe bc n v s h
+  have harr : ∀ a, s.mem.heap.arrAt a ≠ [] → a ∈ s.mem.managed := by
+    intro a ha
+    apply hsafe.1.hok.allm
+    intro hf
+    simp [Heap.arrAt, hf] at ha
+  exact ⟨fun f p => C04_handover_keeps_result {} bc TI.wt_empty n v s h harr f p, rfl,
+    fun a hm hun => C04_handover_releases_the_rest {} bc TI.wt_empty n v s h a hm hun⟩
 
 end C04
 end Nl
